@@ -175,7 +175,9 @@ def run(ctx):
         "8, 9, 10, 16, 17, 33 and a random 9-36 sets ahead of an explorer that knows 1-3 sets - one far-ahead lookup, then every index of the chain; "
         "lookups of index current+2..4 whose first chain request is held at the gate while a lookup of a lower / the same / a higher new index, "
         "the ticker's body, two lookups, a lookup and the ticker's body, or a failing lookup run to completion (overlapping, repeated, contained "
-        "batches: driver form getGuardianSetStale with the `current` read earlier). "
+        "batches: driver form getGuardianSetStale with the `current` read earlier); on-demand lookups of index current+1..3 for which one request "
+        "of the range (first / last / middle) fails 1-3 times - RPC error, HTTP 503, an undecodable or an empty result, endpoint not dialled - "
+        "repeated until the node answers again, every known index looked up after every attempt. "
         "guardiansets: op sequences on the real GuardianSets against a fake JSON-RPC chain - 'realistic' sequences (NewGuardianSets on a "
         "chain prefix, then contiguous updates starting <= current+1, lookups of old/current/future/non-existent indexes with RPC and dial "
         "failures, GetGuardianSetsFromChain, one round of the real ticker goroutine) on which the Spec is evaluated, and 'adversarial' "
@@ -195,7 +197,13 @@ def run(ctx):
         "strictly shrinking size ladders, 1-key bootstrap sets followed by 19-key sets) in which a Push naming set current+2..3 is held at the fake "
         "node's gate while Pushes naming a lower / the same / a higher new set (or two, or a cross-signed one) complete, and a chain 9-12 sets ahead "
         "(growing and shrinking ladder); after each, for every known set an exact-quorum VAA of its own guardians and VAAs naming it that carry "
-        "exactly a quorum of each OTHER known set's guardians under their own indexes (any displacement of a set within the list lets one through). The Spec 'queued => signed, quorum of the NAMED set, Valid signatures' is "
+        "exactly a quorum of each OTHER known set's guardians under their own indexes (any displacement of a set within the list lets one through); "
+        "failed on-demand lookups right after a set change: 9 worlds of sets that share their low positions with the predecessor (1 -> 19 keeping key 0, "
+        "extension ladders, prefixes, same size with 1 or 6 members replaced, up-and-down; the explorer holds 1-4 sets), a VAA naming set current+1..3 "
+        "whose lookup fails at the first / last / middle request of the range (RPC error, HTTP 503, undecodable result, empty result, endpoint not "
+        "dialled) for the next 1 / 2 / all lookups of a window of VAAs naming that set - exactly a quorum of the newest / the previous / the oldest "
+        "stored set's guardians, a complete one, the named set's own low positions as many as the newest stored set's quorum - pushed while the "
+        "lookup fails and again after it recovered, then every known set probed. The Spec 'queued => signed, quorum of the NAMED set, Valid signatures' is "
         "evaluated on what appeared on the queue, independently of the model. "
         "concurrency: 4 reader goroutines (GetGuardianSet of published, published-1, published+1; GetCurrentGuardianSet) against 2 "
         "updateGuardianSets writers, every result checked, under -race. distinct_nontrivial = lines on which model and implementation "
